@@ -46,7 +46,10 @@ ASSUMPTIONS = ["reference closure / participation / lookup / typing computed fro
                "well-formedness); across associations role names and association names may repeat",
                "models keep links along associations that are used under a transitive operator acyclic (DESIGN defect (c) "
                "would make attack-graph generation run for ever otherwise); a model on which the classes factory, the model "
-               "or the attack-graph generator raises is skipped for the over-approximation clause (other properties)",
+               "or the attack-graph generator raises is skipped for the over-approximation clause (other properties); when it "
+               "is the generator that raises on a saturated language, the clause is evaluated for that model on each "
+               "single-step sub-language instead (one rejected step must not hide the edges of the others); all "
+               "single-step sub-languages of a language share assets / associations, so one classes factory and model serve them",
                "any exception raised by LanguageGraph() counts as 'reported' for an ill-formed language"]
 BUDGET_S = {"quick": 95, "thorough": 1500}
 CHUNK = 40
@@ -244,6 +247,66 @@ def _link_clauses(r, spec, lg):
                     "links-vs-reaches")
 
 
+def _check_edges(r, spec, lg, g, mrec, note=""):
+    """over-approximation clause on one generated attack graph g of language graph lg; returns the number of edges"""
+    node = {a.name: a for a in lg.assets}
+    edges = 0
+    for nd in g.nodes:
+        tx = str(nd.asset.type)
+        src = next((s for s in node[tx].attack_steps if s.name == nd.name), None)
+        for c in nd.children:
+            edges += 1
+            ty = str(c.asset.type)
+            targets = src.children.get(c.name, []) if src is not None else []
+            ok = any(L.is_sub(spec, ty, t.asset.name) for (t, _) in targets)
+            if not ok:
+                d = L.steps_ref(spec, tx).get(nd.name)
+                shapes = sorted({L.shape(e) for e in (d["reaches"]["stepExpressions"] if d and d["reaches"] else [])
+                                 if L.final_step(e) == c.name})
+                r.check("C15.over-approximation", False, PSE,
+                        "%smodel %s: attack-graph edge %s(%s):%s -> %s(%s):%s; the language graph links %s:%s only to %s"
+                        % (note, json.dumps(mrec["assets"]), nd.asset.name, tx, nd.name, c.asset.name, ty, c.name, tx, nd.name,
+                           [t.asset.name + ":" + t.name for (t, _) in targets]), "edge-not-predicted:" + ",".join(shapes))
+            else:
+                r.check("C15.over-approximation", True, PSE)
+    return edges
+
+
+def _single_step_languages(spec):
+    """the sub-languages of spec that keep every asset, association, variable and every step WITHOUT a reaches clause
+    but only ONE of the steps that have one: (asset name, step name, langspec dict)"""
+    bare = copy.deepcopy(spec)
+    for a in bare["assets"]:
+        a["attackSteps"] = [s for s in a["attackSteps"] if not s["reaches"]]
+    for a in spec["assets"]:
+        for s in a["attackSteps"]:
+            if s["reaches"]:
+                thin = copy.deepcopy(bare)
+                L.decl(thin, a["name"])["attackSteps"].append(copy.deepcopy(s))
+                yield a["name"], s["name"], thin
+
+
+def _overapprox_isolated(r, spec, mrec):
+    """The generator raised on this model for the saturated language, which hides every edge of that model.  The clause
+    is evaluated instead on every single-step sub-language (same assets / associations / variables, hence one classes
+    factory and one model object for all of them, built from the step-free sub-language), with the language graph OF
+    THAT sub-language; sub-languages on which the generator still raises are skipped."""
+    from maltoolbox.language import LanguageGraph, LanguageClassesFactory
+    from maltoolbox.attackgraph import AttackGraph
+    edges = 0
+    model = None
+    for (an, sn, thin) in _single_step_languages(spec):
+        try:
+            lg_t = LanguageGraph(copy.deepcopy(thin))
+            if model is None:
+                model, _ = L.build_model(LanguageClassesFactory(lg_t), thin, mrec)
+            g = AttackGraph(lg_t, model)
+        except Exception:
+            continue
+        edges += _check_edges(r, thin, lg_t, g, mrec, "single-step sub-language %s:%s, " % (an, sn))
+    return edges
+
+
 def _overapprox(r, spec, lg, recipe):
     from maltoolbox.language import LanguageClassesFactory
     from maltoolbox.attackgraph import AttackGraph
@@ -252,34 +315,20 @@ def _overapprox(r, spec, lg, recipe):
         lcf = LanguageClassesFactory(lg)
     except Exception:
         return 0
-    node = {a.name: a for a in lg.assets}
     edges = 0
     for k in range(recipe["models"]):
         n = 2 if k == 0 else (rnd.randint(1, 3) if recipe["models"] > 3 else 3)
         mrec = L.random_model_recipe(spec, rnd, n, rnd.choice((0.5, 0.8, 1.0)))
         try:
             model, _ = L.build_model(lcf, spec, mrec)
-            g = AttackGraph(lg, model)
         except Exception:
             continue
-        for nd in g.nodes:
-            tx = str(nd.asset.type)
-            src = next((s for s in node[tx].attack_steps if s.name == nd.name), None)
-            for c in nd.children:
-                edges += 1
-                ty = str(c.asset.type)
-                targets = src.children.get(c.name, []) if src is not None else []
-                ok = any(L.is_sub(spec, ty, t.asset.name) for (t, _) in targets)
-                if not ok:
-                    d = L.steps_ref(spec, tx).get(nd.name)
-                    shapes = sorted({L.shape(e) for e in (d["reaches"]["stepExpressions"] if d and d["reaches"] else [])
-                                     if L.final_step(e) == c.name})
-                    r.check("C15.over-approximation", False, PSE,
-                            "model %s: attack-graph edge %s(%s):%s -> %s(%s):%s; the language graph links %s:%s only to %s"
-                            % (json.dumps(mrec["assets"]), nd.asset.name, tx, nd.name, c.asset.name, ty, c.name, tx, nd.name,
-                               [t.asset.name + ":" + t.name for (t, _) in targets]), "edge-not-predicted:" + ",".join(shapes))
-                else:
-                    r.check("C15.over-approximation", True, PSE)
+        try:
+            g = AttackGraph(lg, model)
+        except Exception:
+            edges += _overapprox_isolated(r, spec, mrec)
+            continue
+        edges += _check_edges(r, spec, lg, g, mrec)
     return edges
 
 
